@@ -19,6 +19,9 @@ type vConn struct {
 	readsBeforeDeadline int
 	writeErr  bool
 	hang      bool
+	delay     time.Duration // the scripted input only becomes readable this long after the first Read
+	deadline  time.Time
+	waited    bool
 }
 
 type vTimeoutErr struct{}
@@ -30,6 +33,18 @@ func (vTimeoutErr) Temporary() bool { return true }
 func (c *vConn) Read(p []byte) (int, error) {
 	if c.deadlines == 0 {
 		c.readsBeforeDeadline++
+	}
+	if c.delay > 0 && !c.waited {
+		// the peer answers late: the read returns at the answer or at the deadline, whichever comes first
+		c.waited = true
+		avail := time.Now().Add(c.delay)
+		if !c.deadline.IsZero() && c.deadline.Before(avail) {
+			time.Sleep(time.Until(c.deadline))
+			c.waited = false
+			c.delay = avail.Sub(time.Now())
+			return 0, vTimeoutErr{}
+		}
+		time.Sleep(c.delay)
 	}
 	if c.pos >= len(c.in) {
 		if c.hang {
@@ -59,7 +74,7 @@ func (c *vConn) Write(p []byte) (int, error) {
 func (c *vConn) Close() error                       { c.closed++; return nil }
 func (c *vConn) LocalAddr() net.Addr                { return vAddr("10.0.0.1:7946") }
 func (c *vConn) RemoteAddr() net.Addr               { return vAddr("10.0.0.2:7946") }
-func (c *vConn) SetDeadline(t time.Time) error      { c.deadlines++; return nil }
+func (c *vConn) SetDeadline(t time.Time) error      { c.deadlines++; c.deadline = t; return nil }
 func (c *vConn) SetReadDeadline(t time.Time) error  { c.deadlines++; return nil }
 func (c *vConn) SetWriteDeadline(t time.Time) error { c.deadlines++; return nil }
 
